@@ -23,6 +23,25 @@ type fnAction struct {
 	name      string
 	intrinsic func(e *Exec, fn *ssa.Function, args []Value) Value
 	target    *ssa.Function
+	// condExec, if set and true for the arguments, executes the real body instead of the intrinsic
+	condExec func(args []Value) bool
+}
+
+// condIntrinsics: summaries that only stand in for the real code when an argument is
+// outside what the engine computes exactly. RetentionDuration is float32 arithmetic: with an
+// opaque (symbolic) retention_days it is replaced by an arbitrary non-negative duration,
+// with a concrete retention_days the real body runs on the concrete float.
+var condIntrinsics = map[string]func(args []Value) bool{
+	"(" + repoMod + "/config.Sweeper).RetentionDuration": func(a []Value) bool {
+		if sv, ok := a[0].(*StructV); ok {
+			for _, f := range sv.F {
+				if fv, ok := f.(FloatV); ok {
+					return !fv.Opaque
+				}
+			}
+		}
+		return false
+	},
 }
 
 const repoMod = "github.com/PowerDNS/lightningstream"
@@ -178,7 +197,7 @@ func (e *Exec) decideAction(fn *ssa.Function) *fnAction {
 		}
 	}
 	if in, ok := intrinsics[key]; ok {
-		return &fnAction{kind: actIntrinsic, name: key, intrinsic: in}
+		return &fnAction{kind: actIntrinsic, name: key, intrinsic: in, condExec: condIntrinsics[key]}
 	}
 	if tgt, ok := e.redirects()[key]; ok {
 		return &fnAction{kind: actRedirect, name: key, target: tgt}
